@@ -2,11 +2,25 @@ package di
 
 import (
 	"math/rand/v2"
+	"sync"
 )
+
+// lockedSource makes the shared generator safe for the concurrent Sets that shuffle with it.
+type lockedSource struct {
+	m   sync.Mutex
+	src rand.Source
+}
+
+func (s *lockedSource) Uint64() uint64 {
+	s.m.Lock()
+	defer s.m.Unlock()
+
+	return s.src.Uint64()
+}
 
 func (c *Container) Rand() *rand.Rand {
 	if c.rand == nil {
-		c.rand = rand.New(rand.NewPCG(rand.Uint64(), rand.Uint64()))
+		c.rand = rand.New(&lockedSource{src: rand.NewPCG(rand.Uint64(), rand.Uint64())})
 	}
 
 	return c.rand
